@@ -209,6 +209,7 @@ func Version(version string) OptionFn {
 func ExtendTypes(fn func(*pgtype.Map)) OptionFn {
 	return func(srv *Server) error {
 		fn(srv.types)
+		srv.typeExtensions = append(srv.typeExtensions, fn)
 		return nil
 	}
 }
